@@ -14,12 +14,6 @@ import (
 	"time"
 )
 
-// a second valid SPS (720p, high profile), for in-band parameter changes
-var verifTestSPS2 = []byte{
-	0x67, 0x64, 0x00, 0x1f, 0xac, 0xd9, 0x40, 0x50, 0x05, 0xbb, 0x01, 0x6c, 0x80, 0x00, 0x00, 0x03,
-	0x00, 0x80, 0x00, 0x00, 0x1e, 0x07, 0x8c, 0x18, 0xcb,
-}
-
 func verifC08URLs(m *Muxer, sid string) []string {
 	urls := []string{"index.m3u8", sid + "_stream.m3u8", "unknown.mp4"}
 	st := verifLLState(m, sid)
